@@ -95,7 +95,8 @@ class Replayer:
     kw = {}
     bounds = self.bounds
     if bounds == 'mixed':  # explicit (1/100, 100) as in the specification, or the library defaults (1e-6, 1e6)
-      bounds = (Fraction(1, 100), Fraction(100)) if r.random() < 0.5 else None
+      # ... or a floor far below the library default (a constant column then sits at 1e-8)
+      bounds = r.choice([(Fraction(1, 100), Fraction(100)), None, (Fraction(1, 10**8), Fraction(100))])
     if bounds is not None:
       kw = {'std_min_value': float(bounds[0] * scale), 'std_max_value': float(bounds[1] * scale)}
       lo, hi = bounds[0] * scale, bounds[1] * scale
@@ -161,6 +162,8 @@ class Replayer:
       elif sc != 'skip' and abs(got_std[f] - want_std) > 1e-9 * want_std:
         bad.append(f'std[{f}] {got_std[f]!r} != clip(sqrt(variance)) {want_std!r} (case {sc})')
     # ---- normalize / denormalize on the last batch plus an integer leaf
+    # (the last batch and fresh probe rows: on its own data a constant column has x - mean = 0, which hides the divisor)
+    last = np.concatenate([last, last + 0.375, last * 1.5 - 2.0], axis=0)
     data = {'f': self.nest(kind, last), 'n': jnp.asarray(np.arange(len(last), dtype=np.int32) * 7 - 3)}
     ms = rs.NestedMeanStd(mean={'f': state.mean, 'n': jnp.zeros(())}, std={'f': state.std, 'n': jnp.ones(()) * 3})
     norm = rs.normalize(data, ms)
@@ -246,9 +249,12 @@ def random_traces(ctx, r, n, label, bounds_names, bounds):
       c = float(state.count)
       s1 = np.asarray(state.mean) * c
       q = np.asarray(state.summed_variance) * c
-      ok = all(abs(v - round(v)) < 1e-6 for v in list(s1) + list(q)) and abs(c - round(c)) < 1e-9
+      finite = bool(np.isfinite(c) and np.all(np.isfinite(s1)) and np.all(np.isfinite(q)))
+      if not finite:      # a poisoned state is an observation for the trace specification (count -1), not a harness failure
+        c, s1, q = -1.0, np.full(F, -1.0), np.full(F, -1.0)
+      ok = finite and all(abs(v - round(v)) < 1e-6 for v in list(s1) + list(q)) and abs(c - round(c)) < 1e-9
       std = np.asarray(state.std)
-      var = np.asarray(state.summed_variance) / c
+      var = np.asarray(state.summed_variance) / c if finite else np.full(F, np.nan)
       sc = []
       for f in range(F):
         if std[f] == float(bounds[0]):
